@@ -1,7 +1,7 @@
 #!/usr/bin/env python3
 """Re-run every seeded change under /verif/seeded against the check of its property (scratch worktree of /repo HEAD, VERIF_REPO) and
 refresh meta.json: check_result (caught | missed | machinery-failure | neutralized | does-not-apply), check_signatures, checked_at_repo.
-usage: tools/seedall.py [PROP ...]"""
+usage: tools/seedall.py [PROP | PROP-seedname ...]   (several instances may run side by side on disjoint arguments)"""
 import json, os, pathlib, subprocess, sys
 V = pathlib.Path(__file__).resolve().parent.parent
 claimed = {c["property_id"] for c in json.load(open(V / "MANIFEST.json"))["checks"]}
@@ -13,9 +13,9 @@ for d in sorted((V / "seeded").iterdir()):
         continue
     meta = json.load(open(d / "meta.json"))
     prop = meta.get("property") or d.name.split("-")[0]
-    if only and prop not in only:
+    if only and prop not in only and d.name not in only:
         continue
-    wt = "/tmp/st/wt-all"
+    wt = "/tmp/st/wt-all-%d" % os.getpid()
     subprocess.run(["git", "-C", "/repo", "worktree", "remove", "--force", wt], capture_output=True)
     subprocess.run(["git", "-C", "/repo", "worktree", "add", "-q", "--detach", wt, "HEAD"], check=True)
     res, sigs = None, []
